@@ -574,7 +574,12 @@ class _RequiredForecastingHorizonMixin:
         else:
             fh = check_fh(fh)
             if self.is_fitted:
-                if not np.array_equal(fh, self._fh):
+                # compare the steps ahead of the current cutoff, so that a relative
+                # and an absolute horizon with the same numbers are told apart
+                cutoff = self.cutoff
+                if not np.array_equal(
+                    fh.to_relative(cutoff), self._fh.to_relative(cutoff)
+                ):
                     # raise error if existing fh and new one don't match
                     raise ValueError(
                         "A different forecasting horizon `fh` has been "
